@@ -165,16 +165,16 @@ PS_ASG = '__CPROVER_assigns(self->done.v, self->fastRelease.v, g_lin_count, g_li
 UNITS.append(Unit(
     name='per_signal_wakeup', src=TP_H, within=r'struct per_signal\b', anchor=r'void wakeup\(bool fastmode\)',
     proto='void per_signal_wakeup(struct per_signal* self, bool fastmode)',
-    contract='__CPROVER_requires(__CPROVER_is_fresh(self, sizeof(*self)))\n__CPROVER_ensures(fastmode ==> (g_lin_new == 1 && gv_is_rel(g_last_write_order)))\n' + PS_ASG,
+    contract='__CPROVER_requires(__CPROVER_is_fresh(self, sizeof(*self)) && g_lin_count == 0)\n/* fast mode: exactly two writes -- done := 0 first, THEN the release store of 1 */\n__CPROVER_ensures(fastmode ==> (g_lin_count == 2 && g_lin_new == 1 && gv_is_rel(g_last_write_order)))\n' + PS_ASG,
     prelude=[PSP], lower=PS_LOWER, no_flags=['--conversion-check'],
     says='fork edge, releasing side: the master publishes the region by a store of 1 to the worker\'s flag with an order >= release (after clearing done)',
     trusted=['mutex/condition_variable (non-fast) path is libstdc++: not decided']))
 UNITS.append(Unit(
     name='per_signal_wait', src=TP_H, within=r'struct per_signal\b', anchor=r'void wait\(bool fastmode\)',
     proto='void per_signal_wait(struct per_signal* self, bool fastmode)',
-    contract='__CPROVER_requires(__CPROVER_is_fresh(self, sizeof(*self)))\n__CPROVER_ensures(fastmode ==> (gv_is_acq(g_last_load_order) && g_last_read != 0))\n' + PS_ASG,
+    contract='__CPROVER_requires(__CPROVER_is_fresh(self, sizeof(*self)) && g_lin_count == 0)\n/* fast mode: leaves only after OBSERVING the flag set (acquire), then re-arms it: exactly one write, of 0 */\n__CPROVER_ensures(fastmode ==> (gv_is_acq(g_last_load_order) && g_last_read != 0 && g_lin_count == 1 && g_lin_new == 0))\n' + PS_ASG,
     prelude=[PSP], lower=PS_LOWER, no_flags=['--conversion-check'],
-    loops={1: PS_ASG.replace('__CPROVER_assigns(', '__CPROVER_assigns(').rstrip() + '\n__CPROVER_loop_invariant(1)'},
+    loops={1: PS_ASG.replace('__CPROVER_assigns(', '__CPROVER_assigns(').rstrip() + '\n__CPROVER_loop_invariant(g_lin_count == 0)'},
     says='fork edge, acquiring side: the load with which the worker OBSERVES the released flag asks for an order >= acquire, so the master\'s writes before wakeup() (work function, thread range) happen-before the worker\'s reads after wait() in the C++ model',
     trusted=['mutex/condition_variable (non-fast) path is libstdc++: not decided']))
 
